@@ -165,7 +165,7 @@ class RaceControl:
 
 def run_race(schedule, hosts, cores, behaviour, chooser, offsets=None, on_error="continue", horizon=600.0, cfg_extra=None,
              faults=None, test_mode=False, on_sim=None, shutdown_after=True, store=False, max_steps=20000, track_plugin_hook=None,
-             rc_factory=None, schedule_track=None, linger=0.0, line_preempt=False, top_factory=None):
+             rc_factory=None, schedule_track=None, linger=0.0, line_preempt=False, top_factory=None, thread_preempt=False):
     """runs one race under the given chooser.  Returns Race(status, rc, log, sim, ...)"""
     s = setup()
     driver = s["driver"]
@@ -177,6 +177,10 @@ def run_race(schedule, hosts, cores, behaviour, chooser, offsets=None, on_error=
     sim = actorsim.ActorSim(chooser, horizon=horizon, offsets=offsets or {}, max_steps=max_steps)
     if line_preempt:
         sim.line_preempt = lambda code: code.co_filename.endswith("esrally/driver/driver.py")
+    if thread_preempt:
+        # the executor thread can be preempted between the lines of Sampler.add (the one place where it writes to a structure that the
+        # worker's actor thread reads)
+        sim.thread_line_preempt = lambda code: code.co_name == "add" and code.co_filename.endswith("esrally/driver/driver.py")
     s["sim"] = sim
     r = Race()
     r.sim = sim
